@@ -22,6 +22,7 @@ Pattern pattern(int id, int bs) {
     case 2: return {{{big2}, {"XYZ"}}};                   // two producers
     case 3: return {{{"A", big2}, {eq, "B"}}};            // two producers, two appends each
     case 4: return {{{big1}, {"X"}, {"Y"}}};              // three producers
+    case 5: return {{{"+" + big2 + "|" + eq}, {"XYZ"}}};    // producer 0 hands its record over in two lockless appends under appendLock()/appendUnlock() ('+' marks it, '|' is the split point)
     default: return {{{"A"}}};
   }
 }
@@ -45,11 +46,14 @@ void scenario(int bs, int mn, int mx, int pat) {
   });
   if (!pipe.initialize(cfg)) sched_fail("initialize failed");
   std::vector<std::thread> th;
-  for (auto &lst : P.prod) th.emplace_back([&pipe, &lst] { for (auto &s : lst) pipe.append(s.data(), s.size()); });
+  for (auto &lst : P.prod) th.emplace_back([&pipe, &lst] { for (auto &s : lst) {
+      if (!s.empty() && s[0] == '+') { size_t cut = s.find('|'); pipe.appendLock(); pipe.appendLockless(s.data() + 1, cut - 1); pipe.appendLockless(s.data() + cut + 1, s.size() - cut - 1); pipe.appendUnlock(); }
+      else pipe.append(s.data(), s.size()); } });
   for (auto &t : th) t.join();
   pipe.cleanup();                             // everything appended before this point must have been delivered on return
   g_pipe = nullptr;
   // ---- oracle: out must be an interleaving of the producers' append lists, each append contiguous, producer order kept
+  for (auto &lst : P.prod) for (auto &x : lst) if (!x.empty() && x[0] == '+') { x.erase(x.find('|'), 1); x.erase(0, 1); }      // what must come out: the two parts back to back
   std::vector<size_t> next(P.prod.size(), 0); size_t pos = 0; bool ok = true;
   while (pos < out.size() && ok) {
     ok = false;
